@@ -1,6 +1,7 @@
 package checks
 
 import (
+	"strings"
 	"bytes"
 	"crypto/sha256"
 	"encoding/hex"
@@ -122,6 +123,31 @@ func c11Build(st *monstore.Store, kind string) (start, size int64, table string,
 		return 0, 8 << 20, "", 2048, buildISO(st, 8<<20, 0, ISOOpts{RockRidge: true}, t)
 	case "squashfs":
 		return 0, 8 << 20, "", 4096, buildSquash(st, 8<<20, 0, SqOpts{Comp: "gzip"}, t)
+	case "blank512", "blank4k":
+		// a disk nobody has written to yet
+		if kind == "blank4k" {
+			sector = 4096
+		}
+		return 0, 32 << 20, "", sector, nil
+	case "gpt+blank4k", "mbr+blank512":
+		// a partitioned disk whose partition has never been used
+		sector = 512
+		if kind == "gpt+blank4k" {
+			sector = 4096
+		}
+		d, e := diskfs.OpenBackend(file.New(st, false), sectorOpt(sector))
+		if e != nil {
+			return 0, 0, "", 0, e
+		}
+		psize := int64(24 << 20)
+		if kind == "gpt+blank4k" {
+			table = "gpt"
+			e = d.Partition(&gpt.Table{LogicalSectorSize: sector, PhysicalSectorSize: sector, ProtectiveMBR: true, Partitions: []*gpt.Partition{{Index: 1, Start: uint64(c11Part / sector), End: uint64((c11Part+psize)/int64(sector)) - 1, Type: gpt.LinuxFilesystem, Name: "p1"}}})
+		} else {
+			table = "mbr"
+			e = d.Partition(&mbr.Table{LogicalSectorSize: 512, PhysicalSectorSize: 512, Partitions: []*mbr.Partition{{Index: 1, Type: mbr.Linux, Start: c11Part / 512, Size: uint32(psize / 512)}}})
+		}
+		return c11Part, psize, table, sector, e
 	case "gpt+fat32", "mbr+fat16":
 		d, e := diskfs.OpenBackend(file.New(st, false))
 		if e != nil {
@@ -241,9 +267,10 @@ func c11Run(c core.Case, env *core.Env) core.Result {
 	before := hashNow() // taken before anything of the library touches the image
 	var d *disk.Disk
 	secOpt := sectorOpt(512)
-	if p.Image == "squashfs" {
+	if p.Image == "squashfs" || sector == 4096 {
 		secOpt = sectorOpt(4096) // the squashfs reader needs a block size of at least 4096
 	}
+	blank := strings.Contains(p.Image, "blank")
 	switch p.Route {
 	case "diskfs-open-ro":
 		d, err = diskfs.Open(realPath, diskfs.WithOpenMode(diskfs.ReadOnly), secOpt)
@@ -285,13 +312,17 @@ func c11Run(c core.Case, env *core.Env) core.Result {
 		fail("getfilesystem-panic", pi.Top, "GetFilesystem panicked: %s", pi.Msg)
 		return res
 	}
-	if err != nil && p.Damage == "" {
+	if err != nil && p.Damage == "" && !blank {
 		fail("getfilesystem-error", p.Route, "GetFilesystem(%d) on the read-only image failed: %v", part, err)
 		return res
 	}
 	if err != nil {
-		fs = nil // a damaged image may be refused; whatever was done so far must still not have written
-		res.Count("damaged.getfilesystem_refused", 1)
+		fs = nil // a damaged image may be refused (and a blank range holds nothing); whatever was done so far must still not have written
+		if blank {
+			res.Count("blank.getfilesystem_refused", 1)
+		} else {
+			res.Count("damaged.getfilesystem_refused", 1)
+		}
 	}
 	if st != nil {
 		n := len(st.ROWrites)
@@ -363,6 +394,18 @@ func c11Run(c core.Case, env *core.Env) core.Result {
 			_, e := d.CreateFilesystem(disk.FilesystemSpec{Partition: part, FSType: filesystem.TypeFat32, VolumeLabel: "X"})
 			return e
 		}, true})
+		// every type: the ones that write nothing before Finalize must be refused at creation all the same
+		for _, ft := range []filesystem.Type{filesystem.TypeExt4, filesystem.TypeISO9660, filesystem.TypeSquashfs, filesystem.TypeFat16} {
+			ft := ft
+			mut = append(mut, c11Call{fmt.Sprintf("Disk.CreateFilesystem type %d", int(ft)), true, func() error {
+				nfs, e := d.CreateFilesystem(disk.FilesystemSpec{Partition: part, FSType: ft, VolumeLabel: "X"})
+				if e == nil && nfs != nil {
+					// what a caller would do next
+					_ = nfs.Mkdir("/newdir")
+				}
+				return e
+			}, true})
+		}
 		if table != "" {
 			mut = append(mut, c11Call{"Disk.WritePartitionContents", true, func() error {
 				_, e := d.WritePartitionContents(1, bytes.NewReader(make([]byte, size)))
@@ -529,10 +572,10 @@ func init() {
 	core.Register(&core.Check{
 		ID:          "C11",
 		Level:       "exploration",
-		Rule:        "prebuilt images {fat12, fat16, fat32, ext4, iso9660 (Rock Ridge), squashfs, GPT disk with FAT32 partition, MBR disk with FAT16 partition} are opened read-only through six routes (file.New(store, readOnly=true) over an instrumented store with a write sentinel, a backend whose Writable() fails, file.New(file.New(store, false), true) - a read-only view over a writable backend -, diskfs.Open(path, ReadOnly), file.OpenFromPath(path, true), file.New(os file opened O_RDWR, readOnly=true)) and, for clause (c) and finalized images, through a writable backend with a write log; seeded interleavings of mutating entry points (Partition, WritePartitionContents, CreateFilesystem, Mkdir, OpenFile with every write flag, Write through a handle, Rename, Remove, SetLabel, Chmod, Chown, Chtimes, Symlink, Finalize) and reading entry points are driven: every mutator must return an error and cause zero write events, reading calls must cause zero write events, and the image hash - taken before the library first touches the image, so that opening itself is covered - must be unchanged; the same is driven on images with a stale or inconsistent spot a reader might be tempted to repair (image file cut short in the middle of the partition; GPT primary header / primary entries / backup header failing their CRC, FSInfo free count stale, FAT copies differing, FAT dirty flag, ext4 not cleanly unmounted / error flag / mount count at its maximum): refusing such an image is an observation, writing to it is a violation; non-trivial = an interleaving with at least one rejected mutator or checked reading call; distinct = distinct (image, route, seed)",
+		Rule:        "prebuilt images {fat12, fat16, fat32, ext4, iso9660 (Rock Ridge), squashfs, GPT disk with FAT32 partition, MBR disk with FAT16 partition, and disks or partitions nobody has written to yet (512- and 4096-byte sectors, so that every filesystem type can be asked for)} are opened read-only through six routes (file.New(store, readOnly=true) over an instrumented store with a write sentinel, a backend whose Writable() fails, file.New(file.New(store, false), true) - a read-only view over a writable backend -, diskfs.Open(path, ReadOnly), file.OpenFromPath(path, true), file.New(os file opened O_RDWR, readOnly=true)) and, for clause (c) and finalized images, through a writable backend with a write log; seeded interleavings of mutating entry points (Partition, WritePartitionContents, CreateFilesystem, Mkdir, OpenFile with every write flag, Write through a handle, Rename, Remove, SetLabel, Chmod, Chown, Chtimes, Symlink, Finalize) and reading entry points are driven: every mutator must return an error and cause zero write events, reading calls must cause zero write events, and the image hash - taken before the library first touches the image, so that opening itself is covered - must be unchanged; the same is driven on images with a stale or inconsistent spot a reader might be tempted to repair (image file cut short in the middle of the partition; GPT primary header / primary entries / backup header failing their CRC, FSInfo free count stale, FAT copies differing, FAT dirty flag, ext4 not cleanly unmounted / error flag / mount count at its maximum): refusing such an image is an observation, writing to it is a violation; non-trivial = an interleaving with at least one rejected mutator or checked reading call; distinct = distinct (image, route, seed)",
 		Assumptions: []string{"for the two real-path routes the observation is the SHA-256 of the file before/after (no per-call write log)"},
 		MinSigs:     map[string]int{"quick": 40, "thorough": 1000},
-		NeedMarks:   []string{"damage gpt-primary-header", "damage gpt-backup-header", "damage fsinfo-stale", "damage fat-copies-differ", "damage ext4-not-clean", "route store-ro", "route ro-view-of-rw-backend", "route osfile-rdwr-ro", "damage image-cut-short", "route writable-fails", "route diskfs-open-ro", "route openfrompath-ro", "route writable-reads", "route finalized-writable"},
+		NeedMarks:   []string{"damage gpt-primary-header", "damage gpt-backup-header", "damage fsinfo-stale", "damage fat-copies-differ", "damage ext4-not-clean", "route store-ro", "route ro-view-of-rw-backend", "route osfile-rdwr-ro", "damage image-cut-short", "route writable-fails", "route diskfs-open-ro", "route openfrompath-ro", "route writable-reads", "route finalized-writable", "image blank4k", "image gpt+blank4k"},
 		CPUSec:      300,
 		Cases: func(seed int64, tier string) []core.Case {
 			r := gen.New(seed ^ 0xC11)
@@ -542,6 +585,11 @@ func init() {
 			}
 			var cs []core.Case
 			for rep := 0; rep < reps; rep++ {
+				for _, im := range []string{"blank512", "blank4k", "gpt+blank4k", "mbr+blank512"} {
+					for _, rt := range []string{"store-ro", "writable-fails", "ro-view-of-rw-backend", "diskfs-open-ro"} {
+						cs = append(cs, core.MkCase(fmt.Sprintf("%s-%s-%d", im, rt, rep), "readonly-"+im, r.Int63(), c11Case{Image: im, Route: rt, Calls: calls}))
+					}
+				}
 				for _, im := range images {
 					for _, rt := range []string{"store-ro", "writable-fails", "ro-view-of-rw-backend", "diskfs-open-ro", "openfrompath-ro", "osfile-rdwr-ro", "writable-reads"} {
 						cs = append(cs, core.MkCase(fmt.Sprintf("%s-%s-%d", im, rt, rep), "readonly-"+im, r.Int63(), c11Case{Image: im, Route: rt, Calls: calls}))
